@@ -704,6 +704,23 @@ def directed_scenarios(base_id):
                                    {"op": "getmany", "parts": [], "timeout_ms": 1500, "max_records": 10},
                                    {"op": "position", "p": 0}]], "drain": 20.0})
             k += 1
+    # 6. read_committed: several transactions overlap inside ONE fetch response, the producer that starts first
+    #    does not have the smallest producer id, any subset aborts; a producer may abort twice
+    mk = lambda pid, commit: {"k": "marker", "pid": pid, "commit": commit}  # noqa: E731
+    for (a, b) in ((9, 3), (3, 9), (7, 5)):
+        for (ca, cb) in ((False, False), (False, True), (True, False)):
+            for cut in (None, [100], [3]):
+                logs = [data(2, pid=a, txn=True), data(1), data(2, pid=b, txn=True), data(1, pid=a, txn=True),
+                        mk(a, ca), data(2, pid=b, txn=True), data(1), mk(b, cb),
+                        data(2, pid=a, txn=True), data(1, pid=b, txn=True), mk(b, False), mk(a, ca),
+                        data(2, pid=b, txn=True), mk(b, True), data(1)]
+                out.append({"id": k, "seed": k, "brokers": 1, "partitions": 1, "iso": 1, "policy": "earliest",
+                            "logs": {"0": logs}, "fetch_cut": cut,
+                            "tasks": [[{"op": "getmany", "parts": [], "timeout_ms": 1500, "max_records": 50},
+                                       {"op": "getmany", "parts": [], "timeout_ms": 1500, "max_records": 50},
+                                       {"op": "getmany", "parts": [], "timeout_ms": 500, "max_records": 50},
+                                       {"op": "position", "p": 0}]], "drain": 20.0})
+                k += 1
     for sc in out:
         sc.setdefault("faults", {})
     return out
